@@ -269,6 +269,7 @@ class Proc:
         self.result = None
         self.last_net = None     # last transport action, for the kill-phase classification
         self.in_process = False
+        self.fail_next = None    # 'send' | 'recv': the next frame publish / subscriber read of this process raises (C08 injection points send, recv)
 
         def body():
             sim.procs[threading.get_ident()] = self
@@ -447,6 +448,10 @@ class SimSocket:
             raise ZMQError('socket closed')
         msg = [bytes(m) for m in msg]
         p.debt += sim.link.send_cost
+        if p.fail_next == 'send' and self.typ == PUB and _mid(msg[1]) is not None and _mid(msg[1]) >= 0:
+            p.fail_next = None
+            sim.log.append({'t': sim.now, 'ev': 'injected-transport-error', 'node': p.name, 'op': 'send'})
+            raise ZMQError('injected transport error in send')
         if self.typ == PUB:
             rec = {'t': sim.now, 'ev': 'pub', 'node': p.name, 'inc': p.inc, 'addr': self.addr, 'topic': msg[0], 'env': msg[1], 'sock': id(self), 'n': len(msg),
                    'data': msg[-1] if len(msg) > 2 and msg[-1][:1] == b'{' and len(msg[-1]) < 4000 else None, 'step': sim.steps}
@@ -510,6 +515,10 @@ class SimSocket:
                 raise Again()
             p.recv_wait = self
             sim.block(p, 'recv')
+        if p.fail_next == 'recv' and self.typ == SUB:
+            p.fail_next = None
+            sim.log.append({'t': sim.now, 'ev': 'injected-transport-error', 'node': p.name, 'op': 'recv'})
+            raise ZMQError('injected transport error in recv')
         p.last_net = 'received'
         return self.inbox.pop(0)
 
